@@ -24,11 +24,12 @@ type SpecDB struct {
 	files        []string
 	ghosts       map[string]*Ghost
 	immutable    map[string]bool // type keys ("pkg/path.Type")
+	pkgInvs      map[string][]*Clause
 }
 
 func newSpecDB() *SpecDB {
 	return &SpecDB{pkgs: map[string]*PkgContracts{}, byName: map[string]*FuncContract{}, eff: &effectsCache{done: map[*ssa.Function]*EffectSet{}},
-		inlineExtern: map[string]bool{}, chanInv: map[string][]*Clause{}, ghosts: map[string]*Ghost{}, immutable: map[string]bool{}}
+		inlineExtern: map[string]bool{}, chanInv: map[string][]*Clause{}, ghosts: map[string]*Ghost{}, immutable: map[string]bool{}, pkgInvs: map[string][]*Clause{}}
 }
 
 func readSpecLines(path string) ([]string, error) {
@@ -146,6 +147,7 @@ func (db *SpecDB) add(key string, pc *PkgContracts) {
 	for _, g := range pc.Ghosts {
 		db.ghosts[g.Name] = g
 	}
+	db.pkgInvs[key] = append(db.pkgInvs[key], pc.PkgInvs...)
 	for _, t := range pc.Immutable {
 		if strings.Contains(t, "/") || key == "" {
 			db.immutable[t] = true
